@@ -28,7 +28,6 @@ fn bound_kind(kind: QKind, sem: Sem) -> Option<BoundKind> {
         (_, Sem::PR) => Some(BoundKind::Pr),
         (_, Sem::ID) => Some(BoundKind::Id),
         (_, Sem::SST) | (_, Sem::STG) => Some(BoundKind::Range),
-        (_, Sem::CO) => None,
     }
 }
 
